@@ -491,7 +491,14 @@ impl TransferControl {
             // would otherwise spin forever. Clamp so the first
             // chunk always passes; the practical case
             // (chunk_size <= window_bytes) is unaffected.
-            if in_flight == 0 || in_flight + chunk_len <= guard.window_bytes {
+            // `checked_add`: `sent_offset` and `chunk_len` are caller-supplied
+            // u64s, so the sum can exceed `u64::MAX`; a wrapped sum must not
+            // look like it fits the window.
+            if in_flight == 0
+                || in_flight
+                    .checked_add(chunk_len)
+                    .is_some_and(|needed| needed <= guard.window_bytes)
+            {
                 return Ok(());
             }
             let now = Instant::now();
